@@ -147,6 +147,8 @@ func runC05(c *Ctx) []Obligation {
 			Target: StoreTo(`^var:pin\.(Left|Right)$`).ExceptVal(`^nil$|^\(\*store/iavl\.Node\)\.getLeftNode\(node, t\)\.hash$`), Why: "walking right records the left sibling's hash only"},
 		{Prop: P, ID: "pathToLeaf.leaf-key-must-match", Fn: "(*store/iavl.Node).pathToLeaf", Assume: []Lit{T(`^eq\(0, node\.height\)$`), F(`^bytes\.Equal\(node\.key, key\)$`)}, Target: Success(), Why: "reaching a leaf with another key is reported as absence"},
 	})...)
+	out = append(out, c.twins(P, "spine.twins", "(store/iavl.PathToLeaf).isLeftmost", "(store/iavl.PathToLeaf).isRightmost", []Rename{{From: "Left", To: "Right", Swap: true}},
+		"'rightmost' is decided exactly as 'leftmost' is, on the other side's recorded hashes"))
 	return out
 }
 
